@@ -776,7 +776,11 @@ fn eval_interner(
 /// The key an operation's key index stands for: four dense keys, then two far beyond them (for
 /// the vector-backed map: holes, growth and shrinking by hundreds of slots).
 fn rk(k: u8) -> usize {
-    [0usize, 1, 2, 3, 70, 300][k as usize % 6]
+    if k < 6 {
+        [0usize, 1, 2, 3, 70, 300][k as usize]
+    } else {
+        k as usize
+    }
 }
 
 // ---------------------------------------------------------------- matcher
@@ -922,6 +926,57 @@ impl Property for C20 {
     fn generate(&self, run_seed: u64, run_index: u64) -> Case {
         let mut rng = Rng::split(run_seed, 1);
         match run_index % 5 {
+            0 | 1 | 2 if rng.chance(1, 10) => {
+                // Wide groups: 3 .. 70 distinct keys inserted locally in ONE group (around the sizes
+                // at which an inline table, a hash map or a vector changes shape), a few of them
+                // inserted again (locally or globally), the group closed; some nesting, some
+                // rebuilds, with the whole map compared after every operation.
+                let n = *rng.pick(&[3usize, 7, 8, 9, 15, 16, 17, 31, 32, 33, 64, 70]);
+                let nkeys = n as u8;
+                let mut next_v = 0u32;
+                let mut ops = vec![];
+                // some keys exist before the group
+                for k in 0..n {
+                    if rng.chance(1, 3) {
+                        next_v += 1;
+                        ops.push(MapOp::Insert { k: k as u8, v: next_v, global: false });
+                    }
+                }
+                let outer = rng.chance(1, 2);
+                if outer {
+                    ops.push(MapOp::Begin);
+                    next_v += 1;
+                    ops.push(MapOp::Insert { k: rng.below(n) as u8, v: next_v, global: false });
+                }
+                ops.push(MapOp::Begin);
+                for k in 0..n {
+                    next_v += 1;
+                    ops.push(MapOp::Insert { k: k as u8, v: next_v, global: false });
+                }
+                for _ in 0..1 + rng.below(4) {
+                    next_v += 1;
+                    ops.push(MapOp::Insert { k: rng.below(n) as u8, v: next_v, global: rng.chance(1, 4) });
+                    if rng.chance(1, 6) {
+                        ops.push(MapOp::RebuildIterAll { hash_seed: rng.next_u64() });
+                    }
+                }
+                if rng.chance(1, 3) {
+                    ops.push(MapOp::Begin);
+                    next_v += 1;
+                    ops.push(MapOp::Insert { k: rng.below(n) as u8, v: next_v, global: rng.chance(1, 3) });
+                    ops.push(MapOp::End);
+                }
+                ops.push(MapOp::End);
+                if outer {
+                    ops.push(MapOp::End);
+                }
+                Case::Map {
+                    kind: if rng.chance(1, 2) { MapKind::Hash } else { MapKind::Vec },
+                    nkeys,
+                    first_hash_seed: rng.next_u64(),
+                    ops,
+                }
+            }
             0 | 1 | 2 => {
                 let nkeys = 2 + rng.below(5) as u8;
                 let len = 2 + rng.below(59);
